@@ -127,3 +127,149 @@ Proof.
       destruct a as [|[|[|a]]]; destruct b as [|[|[|b]]]; try lia; vm_compute; reflexivity.
   - split; vm_compute; reflexivity.
 Qed.
+
+(* ==== pytenet.mps.split_mps_tensor: the two-site tensor split with all three singular-value distributions ==========
+   (This part supersedes the remark "Not modelled in Coq: pytenet.mps.split_mps_tensor" further up.)
+   Model: Model/SplitMps.v [split_mps_tensor_full dsvd pick ksqrt A qd0 qd1 qD distr tol] = the reshape
+   A.reshape(d0,d1,D0,D2).transpose(0,2,1,3).reshape(d0*D0, d1*D2) [split_matrix], the charge vectors
+   q0 = flatten(qd0, qD[0]), q1 = flatten(-qd1, qD[1]), the executable split_matrix_svd model [block_svd], the distribution
+   of the singular values (distr 0 = 'left', 1 = 'right', 2 = 'sqrt'; anything else the ValueError) and the reshapes back.
+   A site tensor of numpy shape (d, Dl, Dr) is the list of its d matrices.  Oracles: numpy.linalg.svd [dsvd], the unstable
+   numpy.argsort [pick], numpy.sqrt on the kept singular values [ksqrt].  Proofs: Proofs/SplitMps{Reshape,Agree,Spec,Zero,Bool}.v. *)
+From PT Require Import Model.Tensor Model.MPSOps Model.Orthonormalize Model.SplitMps.
+From PT Require Import Proofs.OrthDefs Proofs.SplitMpsAgree Proofs.SplitMpsSpec Proofs.SplitMpsZero Proofs.SplitMpsBool.
+Open Scope nat_scope.
+
+(* The composed model is the model of Model/MPSOps.v (the one C03 speaks about: [split_mps_tensor] over an abstract
+   split_matrix_svd oracle and an abstract square root) with the oracle instantiated by [block_svd] (singular values embedded
+   into the complex scalars, [svd_of_block]) and the square root by [csqrt ksqrt]: whenever the composed model returns a
+   value it is that model's value, and conversely wherever the input is a (d0*d1, D0, D2) array, the inner split does not
+   raise and the distribution string is valid, the composed model returns that value. *)
+Theorem C12_split_mps_agrees : forall (F : ofield) (dsvd : mx (Cx F) -> mx (Cx F) * list F * mx (Cx F))
+    (pick : list F -> list nat) (ksqrt : F -> F) (A : site (Cx F)) (qd0 qd1 qD0 qD2 : list Z) (rest : list (list Z))
+    (distr : nat) (tol : F),
+  (forall r, split_mps_tensor_full dsvd pick ksqrt A qd0 qd1 (qD0 :: qD2 :: rest) distr tol = Some r ->
+     r = split_mps_tensor (svd_of_block dsvd pick tol) (csqrt ksqrt) A qd0 qd1 qD0 qD2 distr) /\
+  (forall U sigma V qb,
+     site_shape (length qd0 * length qd1) (nr (sel A 0)) (nc (sel A 0)) A = true ->
+     block_svd dsvd pick (split_arg_M A qd0 qd1) (split_arg_q0 qd0 qD0) (split_arg_q1 qd1 qD2) tol = Some (U, sigma, V, qb) ->
+     distr <= 2 ->
+     split_mps_tensor_full dsvd pick ksqrt A qd0 qd1 (qD0 :: qD2 :: rest) distr tol
+     = Some (split_mps_tensor (svd_of_block dsvd pick tol) (csqrt ksqrt) A qd0 qd1 qD0 qD2 distr)).
+Proof.
+  intros F dsvd pick ksqrt A qd0 qd1 qD0 qD2 rest distr tol. split.
+  - intros r. apply full_agrees.
+  - intros U sigma V qb. apply agrees_full.
+Qed.
+Print Assumptions C12_split_mps_agrees.
+
+(* The specification.  For every ordered field F (tensors over its complexification), all d0, d1 >= 1, all bond charge vectors
+   qD0, qD2 (D0 = len qD0, D2 = len qD2; D0, D2 >= 1 follows from A <> 0), every two-site tensor A of shape (d0*d1, D0, D2)
+   that is block sparse under (flatten(qd0, qd1), qD0, qD2) and not identically zero, every 0 <= tol < 1, every distribution
+   distr in {0 'left', 1 'right', 2 'sqrt'}, every oracle [dsvd] meeting LAPACK's contract [dsvd_ok] on the calls issued, every
+   [pick] meeting [pick_ok] on the one call issued, and - for 'sqrt' only - every [ksqrt] with ksqrt(x)^2 = x on the kept
+   singular values (no sign condition is needed): with S the list of all block singular values of the matricised tensor,
+   K = retained pick S tol (C12_retained_spec says exactly which indices these are), sg = S[K], k = len K,
+   the model does not fail and returns (A0, A1, qbond) with
+     len qbond = k, 1 <= k <= min(d0*D0, d1*D2), every kept singular value > 0,
+     A0 of shape (d0, D0, k), A1 of shape (d1, k, D2),
+     A0 block sparse under (qd0, qD0, qbond) and A1 under (qd1, qbond, qD2)  (the MPS site rule of Model/Tensor.v),
+     ||A||^2 = sum S^2,
+     sum over all entries |A - merge(A0, A1)|^2 = sum of the discarded S_i^2  <=  tol * ||A||^2,
+     tol = 0  ==>  merge(A0, A1) = A  (as tensors; C03_merge_split_id without its abstract exactness hypothesis),
+     'right': A0 is a left isometry,  sum_s A0[s]^H A0[s] = I_k   (entrywise [liso] and as the matrix [gram_l]),
+     'left' : A1 is a right isometry, sum_s A1[s] A1[s]^H = I_k   ([riso], [gram_r]),
+     'sqrt' : both Gram matrices equal diag(sg). *)
+Theorem C12_split_mps_spec : forall (F : ofield) (dsvd : mx (Cx F) -> mx (Cx F) * list F * mx (Cx F))
+    (pick : list F -> list nat) (ksqrt : F -> F) (A : site (Cx F)) (qd0 qd1 qD0 qD2 : list Z) (rest : list (list Z))
+    (distr : nat) (tol : F),
+  let d0 := length qd0 in let d1 := length qd1 in let D0 := length qD0 in let D2 := length qD2 in
+  0 < d0 * d1 ->
+  site_shape (d0 * d1) D0 D2 A = true -> site_qsparse (qflat qd0 qd1) qD0 qD2 A = true ->
+  site_is_zero A = false ->
+  fle F (f0 F) tol -> flt F tol (f1 F) -> distr <= 2 ->
+  Forall (fun B => dsvd_ok F B (dsvd B)) (split_mps_calls A qd0 qd1 qD0 qD2) ->
+  let S := block_svd_spectrum F dsvd (split_arg_M A qd0 qd1) (split_arg_q0 qd0 qD0) (split_arg_q1 qd1 qD2) in
+  pick_ok F (normsq S) (pick (normsq S)) ->
+  let K := retained pick S tol in
+  let sg := map (fun i => nth i S (f0 F)) K in
+  let k := length K in
+  (distr = 2 -> forall x, In x sg -> fmul F (ksqrt x) (ksqrt x) = x) ->
+  exists A0 A1 qb,
+    split_mps_tensor_full dsvd pick ksqrt A qd0 qd1 (qD0 :: qD2 :: rest) distr tol = Some (A0, A1, qb) /\
+    length qb = k /\ 1 <= k /\ k <= Nat.min (d0 * D0) (d1 * D2) /\
+    (forall x, In x sg -> flt F (f0 F) x) /\
+    site_shape d0 D0 k A0 = true /\ site_shape d1 k D2 A1 = true /\
+    site_qsparse qd0 qD0 qb A0 = true /\ site_qsparse qd1 qb qD2 A1 = true /\
+    site_nrm2 A = cof (sqsum S) /\
+    site_dist2 A (merge_mps_tensor_pair A0 A1) = cof (fsum (map (sqv F S) (discarded S K))) /\
+    fle F (fsum (map (sqv F S) (discarded S K))) (fmul F tol (sqsum S)) /\
+    (tol = f0 F -> merge_mps_tensor_pair A0 A1 = A) /\
+    (distr = 1 -> liso D0 k A0 /\ gram_l A0 = idmx k) /\
+    (distr = 0 -> riso k D2 A1 /\ gram_r A1 = idmx k) /\
+    (distr = 2 -> gram_l A0 = diagmx sg /\ gram_r A1 = diagmx sg).
+Proof. exact split_mps_spec. Qed.
+Print Assumptions C12_split_mps_spec.
+
+(* The zero tensor: for every zero tensor of shape (d0*d1, D0, D2) (it is block sparse under any charges), every tol, every
+   valid distribution, every [pick] and [ksqrt] whatsoever and every [dsvd] meeting its contract on the issued calls, the model
+   returns without failure tensors of shapes (d0, D0, k), (d1, k, D2) whose merge is the input, i.e. the zero tensor. *)
+Theorem C12_split_mps_zero : forall (F : ofield) (dsvd : mx (Cx F) -> mx (Cx F) * list F * mx (Cx F))
+    (pick : list F -> list nat) (ksqrt : F -> F) (A : site (Cx F)) (qd0 qd1 qD0 qD2 : list Z) (rest : list (list Z))
+    (distr : nat) (tol : F),
+  let d0 := length qd0 in let d1 := length qd1 in let D0 := length qD0 in let D2 := length qD2 in
+  0 < d0 * d1 ->
+  site_shape (d0 * d1) D0 D2 A = true -> site_is_zero A = true -> distr <= 2 ->
+  Forall (fun B => dsvd_ok F B (dsvd B)) (split_mps_calls A qd0 qd1 qD0 qD2) ->
+  exists A0 A1 qb k,
+    split_mps_tensor_full dsvd pick ksqrt A qd0 qd1 (qD0 :: qD2 :: rest) distr tol = Some (A0, A1, qb) /\
+    site_shape d0 D0 k A0 = true /\ site_shape d1 k D2 A1 = true /\ (0 < D0 -> length qb = k) /\
+    merge_mps_tensor_pair A0 A1 = A /\ site_is_zero (merge_mps_tensor_pair A0 A1) = true.
+Proof. exact split_mps_zero. Qed.
+Print Assumptions C12_split_mps_zero.
+
+(* The hypotheses of C12_split_mps_spec in boolean form (evaluated in the Example below) mean what they say. *)
+Theorem C12_split_hyp_sound : forall (F : ofield) (dsvd : mx (Cx F) -> mx (Cx F) * list F * mx (Cx F))
+    (pick : list F -> list nat) (ksqrt : F -> F) (A : site (Cx F)) (qd0 qd1 qD0 qD2 : list Z) (distr : nat) (tol : F),
+  split_hyp_okb dsvd pick ksqrt A qd0 qd1 qD0 qD2 distr tol = true ->
+  let d0 := length qd0 in let d1 := length qd1 in let D0 := length qD0 in let D2 := length qD2 in
+  let S := block_svd_spectrum F dsvd (split_arg_M A qd0 qd1) (split_arg_q0 qd0 qD0) (split_arg_q1 qd1 qD2) in
+  let sg := map (fun i => nth i S (f0 F)) (retained pick S tol) in
+  0 < d0 * d1 /\ site_shape (d0 * d1) D0 D2 A = true /\ site_qsparse (qflat qd0 qd1) qD0 qD2 A = true /\
+  site_is_zero A = false /\ fle F (f0 F) tol /\ flt F tol (f1 F) /\ distr <= 2 /\
+  Forall (fun B => dsvd_ok F B (dsvd B)) (split_mps_calls A qd0 qd1 qD0 qD2) /\
+  pick_ok F (normsq S) (pick (normsq S)) /\
+  (distr = 2 -> forall x, In x sg -> fmul F (ksqrt x) (ksqrt x) = x).
+Proof. exact split_hyp_okb_sound. Qed.
+Print Assumptions C12_split_hyp_sound.
+
+(* Non-vacuity, one rational instance for each distribution: d0 = d1 = 2, D0 = D2 = 2, qd0 = qd1 = [0;1], qD0 = [0;1],
+   qD2 = [1;2]; q0 = [0;1;1;2], q1 = [1;2;0;1] (unsorted: the column permutation is exercised); the matricised tensor has
+   the blocks [[4]] (charge 0), [[27/5,-4/5],[36/5,3/5]] = [[3/5,-4/5],[4/5,3/5]] diag(9,1) I (charge 1), [[1/4]] (charge 2);
+   S = [4;9;1;1/4], tol = 1/100: the value 1/4 (weight 1/1569) is discarded, the next weight 17/1569 exceeds tol;
+   kept 4, 9, 1 with rational square roots 2, 3, 1; qbond = [0;1;1]. *)
+Definition smA : site (Cx QcF) :=
+  [ mc 2 2 [[cq 0 1; cq 0 1]; [cq 27 5; cq 0 1]]; mc 2 2 [[cq 4 1; cq 0 1]; [cq 0 1; cq (-4) 5]];
+    mc 2 2 [[cq 36 5; cq 0 1]; [cq 0 1; cq 1 4]]; mc 2 2 [[cq 0 1; cq 3 5]; [cq 0 1; cq 0 1]] ].
+Definition smqd : list Z := [0; 1]%Z.
+Definition smqD0 : list Z := [0; 1]%Z.
+Definition smqD2 : list Z := [1; 2]%Z.
+Definition smtbl : list (mx (Cx QcF) * (mx (Cx QcF) * list QcF * mx (Cx QcF))) :=
+  [ (mc 1 1 [[cq 4 1]], (mc 1 1 [[cq 1 1]], [qq 4 1], mc 1 1 [[cq 1 1]]));
+    (mc 2 2 [[cq 27 5; cq (-4) 5]; [cq 36 5; cq 3 5]],
+     (mc 2 2 [[cq 3 5; cq (-4) 5]; [cq 4 5; cq 3 5]], [qq 9 1; qq 1 1], mc 2 2 [[cq 1 1; cq 0 1]; [cq 0 1; cq 1 1]]));
+    (mc 1 1 [[cq 1 4]], (mc 1 1 [[cq 1 1]], [qq 1 4], mc 1 1 [[cq 1 1]])) ].
+Definition smpick : list QcF -> list nat := fun _ => [3; 2; 0; 1].
+Definition smsqrt : QcF -> QcF := fun x =>
+  if feqb QcF x (qq 4 1) then qq 2 1 else if feqb QcF x (qq 9 1) then qq 3 1 else if feqb QcF x (qq 1 1) then qq 1 1 else qq 0 1.
+Definition smtol : QcF := qq 1 100.
+Example C12_split_mps_nonvacuous :
+  forallb (fun distr => split_hyp_okb (svd_oracle smtbl) smpick smsqrt smA smqd smqd smqD0 smqD2 distr smtol) [0; 1; 2] = true /\
+  retained smpick (block_svd_spectrum QcF (svd_oracle smtbl) (split_arg_M smA smqd smqd) (split_arg_q0 smqd smqD0) (split_arg_q1 smqd smqD2)) smtol
+    = [0; 1; 2] /\
+  forallb (fun distr =>
+    match split_mps_tensor_full (svd_oracle smtbl) smpick smsqrt smA smqd smqd [smqD0; smqD2] distr smtol with
+    | Some (A0, A1, qb) => zlist_eqb qb [0; 1; 1]%Z && site_shape 2 2 3 A0 && site_shape 2 3 2 A1
+                           && negb (site_eqb (merge_mps_tensor_pair A0 A1) smA)
+    | None => false end) [0; 1; 2] = true.
+Proof. split; [vm_compute; reflexivity|]. split; vm_compute; reflexivity. Qed.
